@@ -829,7 +829,7 @@ func (f *ontFam) Gen(r *hx.Run) {
 }
 
 func (f *ontFam) genMsg(r *hx.Run) {
-	r.Rule("ONT cross-chain messages over tracked sets of 1..10 keys (every size, several per size) x 15 signer-list shapes " +
+	r.Rule("ONT cross-chain messages over tracked sets of 1..10 keys (every size, several per size) x 17 signer-list shapes " +
 		"(exact/below/above bound, repeated keys, foreign keys, wrong-message / garbage / missing / permuted / repeated signatures, empty), " +
 		"through header_sync SyncCrossChainMsg and cross_chain_manager MakeDepositProposal, with one or two key heights; " +
 		"distinct non-trivial = (tracked size, shape, entry point, outcome)")
@@ -902,7 +902,7 @@ func lastPart(res string) string {
 }
 
 func (f *ontFam) genHdr(r *hx.Run) {
-	r.Rule("ONT header-sync histories: genesis peer set of 1..10 keys, then headers in ANY height order: 15 signer-list shapes against the " +
+	r.Rule("ONT header-sync histories: genesis peer set of 1..10 keys, then headers in ANY height order: 17 signer-list shapes (incl. one key under several wire encodings) against the " +
 		"set in force, configuration-changing headers (new peer sets of 1..10 keys, also with repeated ids) above, between and below existing key " +
 		"heights, headers between key heights submitted after the later configuration is recorded, headers signed by the wrong epoch's set, " +
 		"stored heights again, heights at/below the lowest key height, non-JSON consensus payload, a second genesis, cross-chain messages " +
@@ -1004,6 +1004,17 @@ func (f *ontFam) genHdr(r *hx.Run) {
 					rec("config-between", res, len(set))
 					if res == "ok" {
 						epochs = append(epochs, epoch{h, ns})
+						// a header (and a message) ABOVE every key height now: the set in force is the one of the greatest key
+						// height, not the one recorded last
+						ha := fresh(top()+1, top()+20)
+						bl, sl, _ := signerShape(r, ns, 2)
+						rec("above-all-late-recorded-set", hdr(ha, "-", bl, sl), len(ns))
+						hm := fresh(top()+1, top()+20)
+						rec("msg-above-all-late-recorded-set", r.Do(fmt.Sprintf("msg %d %s %s", hm, idxList(bl), sl)), len(ns))
+						hb := fresh(top()+1, top()+20)
+						right, _ := inForce(hb)
+						br, sr, _ := signerShape(r, right, 0)
+						rec("above-all-right-set", hdr(hb, "-", br, sr), len(right))
 					}
 				case step == nShapes+3 || step == nShapes+9: // header between key heights, after later configurations are known
 					if top() <= g+2 {
